@@ -304,9 +304,40 @@ def judgeToken (tok : String) : List String :=
     | _ => [s!"unparsable {tok}"]
   | _ => []
 
+def isInfix (pat s : List Byte) : Bool :=
+  pat.isEmpty || (List.range (s.length + 1 - pat.length)).any fun i => (s.drop i).take pat.length = pat
+
+/-- **faithfulness to the input**: the control sequence an abstract-key token carries (when it has no private marker)
+    must occur in the bytes that were actually delivered – introducer (7- or 8-bit, with the meta ESC when flagged),
+    its parameters separated by `;`, its final byte, contiguously.  A sequence that designates its key but was never
+    sent (stitched together from pieces, truncated, inherited from an earlier packet) fails here. -/
+def unfaithful (input : List Byte) (tok : String) : List String :=
+  match tok.toList with
+  | 'K' :: rest =>
+    match (String.ofList rest).splitOn "." with
+    | k :: _ :: _ :: s :: more =>
+      match k.toNat?, s.toList with
+      | some key, 'c' :: i =>
+        if !isAbstractKey key then [] else
+        match parseSeq (String.ofList i :: more) with
+        | some c =>
+          if c.extender ≠ 0 then [] else
+          let body : List Byte := (List.intersperse [0x3B] c.args).flatten ++ [c.command]
+          let intros : List (List Byte) :=
+            (if c.initiator = 0x5B then [[0x9B]] else if c.initiator = 0x4F then [[0x8F]] else []) ++ [[0x1B, c.initiator]]
+          let pre : List Byte := if c.metaFlag then [0x1B] else []
+          if intros.any (fun it => isInfix (pre ++ it ++ body) input) then []
+          else [s!"never-sent {tok}"]
+        | none => []
+      | _, _ => []
+    | _ => []
+  | _ => []
+
 def oracleC20 (cfgWords : List String) (rest real : String) : String :=
   let rruns := realRuns real
-  let stream := (rruns.flatMap runToks).flatMap judgeToken
+  let cruns := caseRuns rest
+  let faith := ((cruns.zip rruns).flatMap fun p => (runToks p.2).flatMap (unfaithful p.1.flatten))
+  let stream := (rruns.flatMap runToks).flatMap judgeToken ++ faith
   let single : List String :=
     if cfgWords = ["byte"] then
       match caseRuns rest, rruns with
